@@ -82,8 +82,9 @@ func (h *MultiHandler) Result() (interface{}, error) {
 // The message received should be _reliably_ broadcast if msg.Broadcast is true.
 // The channel is closed when either an error occurs or the protocol detects an error.
 func (h *MultiHandler) Listen() <-chan *Message {
-	h.mtx.Lock()
-	defer h.mtx.Unlock()
+	// h.out is never reassigned, so it can be read without h.mtx. Taking the lock here would
+	// deadlock with an Accept that holds it while blocked on a full channel: the caller could
+	// no longer obtain the channel it needs to drain.
 	return h.out
 }
 
